@@ -3,6 +3,7 @@ import Receptor.Drive.DER
 import Receptor.Drive.Wire
 import Receptor.Drive.Pkt
 import Receptor.Drive.Fw
+import Receptor.Drive.Cert
 /-! Line-protocol driver: one JSON request per line `{"e":engine,"op":op,"a":args,"r":impl-observation}`,
 one JSON reply per line `{"m":model-result,"prop":true|false|null,"why":…}` or `{"bad-op":…}`. -/
 open Lean Receptor.Drive
@@ -14,6 +15,7 @@ def dispatch (e op : String) (a r : Json) : Except String Reply :=
   | "framer" => Receptor.Drive.Framer.handle op a r
   | "pkt" => Receptor.Drive.Pkt.handle op a r
   | "fw" => Receptor.Drive.Fw.handle op a r
+  | "cert" => Receptor.Drive.Cert.handle op a r
   | _ => throw s!"bad-op unknown engine {e}"
 
 def handleLine (line : String) : String :=
